@@ -76,7 +76,7 @@ def format_sites(fn):
             yield n
 
 
-def rule_slot_completeness(ctx, rep: Report, rid="W1", cls="PybindWrapper", min_sites=15):
+def rule_slot_completeness(ctx, rep: Report, rid="W1", cls="PybindWrapper", min_sites=15, unused_ok=False):
     ci = ctx.prog.cls(cls)
     prog = ctx.prog
     n = 0
@@ -98,6 +98,8 @@ def rule_slot_completeness(ctx, rep: Report, rid="W1", cls="PybindWrapper", min_
                     f"placeholder(s) {t.missing} have no value at this call: a KeyError/IndexError on the path "
                     f"that reaches it", f"{ci.mod.rel}:{site.lineno}")
             unused = [u for u in t.unused]
+            if unused_ok:
+                continue        # this emitter passes context values to every template as a habit; only a missing one breaks
             rep.add(rid, key + ":no dropped fragment", not unused,
                     f"value(s) passed for {unused} are not used by the template: that fragment is silently "
                     f"dropped from the generated code", f"{ci.mod.rel}:{site.lineno}", nontrivial=bool(unused))
